@@ -1894,7 +1894,7 @@ class Engine:
 
     def bi_type(self, e, ec):
         x = self.ev(e.args[0], ec)
-        return tV(V.cls(typeid(toV(x))))
+        return T("cls", typeid(toV(x)))
 
     def bi_str(self, e, ec):
         if not e.args:
